@@ -22,12 +22,19 @@ SOURCES = ["src", "src2"]
 
 
 class Project:
-    def __init__(self, shape, backend="slurm", hashing=False, extra_config=None):
+    WF_CACHE = {}
+
+    def __init__(self, shape, backend="slurm", hashing=False, extra_config=None, reuse_targets=False):
+        """reuse_targets: keep one Workflow/Target object set per shape for the whole process, so that
+        hash-ordered sets of targets iterate in the same order on every path (Target hashes by identity)."""
         self.shape = shape
         self.spec = SHAPES[shape]
         self.names = [t[0] for t in self.spec]
         self.n = len(self.spec)
         self.w = World(backend)
+        cached = Project.WF_CACHE.get(shape) if reuse_targets else None
+        if cached is not None:
+            self.w.wf = cached
         cfg = dict(extra_config or {})
         if hashing:
             cfg["use_spec_hashes"] = True
@@ -36,7 +43,16 @@ class Project:
         self.hashing = hashing
         self.targets = {}
         for name, ins, outs in self.spec:
-            self.targets[name] = self.w.target(name, ins, outs)
+            if cached is not None:
+                t = cached.targets[name]
+                t.spec = "make " + name
+                t.protect = set()
+                self.w._opts[name] = {}
+                self.targets[name] = t
+            else:
+                self.targets[name] = self.w.target(name, ins, outs)
+        if reuse_targets and cached is None:
+            Project.WF_CACHE[shape] = self.w.wf
         producers = {}
         for i, (name, ins, outs) in enumerate(self.spec):
             for o in outs:
